@@ -31,7 +31,9 @@ RULE = ("own legs: %d operation batteries (vectors, inplace_vector, strings in b
         "batteries x 3 seeds evaluated by GCC's constant evaluator at compile time (UB there = the harness does not build) and "
         "compared with their run-time values; %d object kinds default-initialised over 0xFF-poisoned storage; to_floating_point on every "
         "view of length <= 3 (9-character alphabet, flush against the end of an exact-size heap buffer) + seeded random longer ones; "
-        "aggregated legs: the cases of the listed packages' generators re-run under the sanitizer variant the package declares "
+        "from_floating_point for exactly representable values x precisions 0..6 x every span length around the exact fit (exact-size heap buffers); "
+        "aggregated legs: the cases of the listed packages' generators re-run under the sanitizer variant the package declares (for the "
+        "packages that declare none: the package's main harness built with ASan+UBSan by C02) "
         "(-fno-sanitize-recover / trap) and compared with the extracted model (a sanitizer report = `crash` = disagreement); "
         "non-trivial = distinct case" % (N_BATTERIES, N_CE, len(KINDS)))
 TRUSTED_BASE = ["ASan/UBSan runtime of g++ 12 (what they can see: heap/stack/global out-of-bounds, misaligned/null access, signed overflow, "
@@ -44,7 +46,7 @@ ASSUMPTIONS = ["memory safety of the compiled object code beyond the models' ind
 # every package with a model; the sanitizer variant is discovered from the package's own prop.py (see _pick_variant)
 AGGREGATE = ["C01", "C03", "C04", "C06a", "C06b", "C07", "C08", "C09", "C10", "C11", "C12", "C14", "C17", "C18", "C19", "C20"]
 # quick tier: cases sampled per package (the thorough tier runs the package's whole quick AND thorough generators)
-QUICK_CASES = {"C01": 10000, "C03": 6000, "C06a": 20000, "C07": 6000, "C08": 20000, "C10": 20000, "C12": 10000, "C14": 20000, "C17": 1500, "C18": 20000, "C19": 6000, "C20": 6000}
+QUICK_CASES = {"C04": 6000, "C06b": 12000, "C09": 6000, "C11": 12000, "C01": 5000, "C03": 3000, "C06a": 12000, "C07": 3000, "C08": 12000, "C10": 10000, "C12": 6000, "C14": 12000, "C17": 600, "C18": 12000, "C19": 3000, "C20": 3000}
 QUICK_DEFAULT = 4000
 THOROUGH_CASES = 400000
 # C02 is THE sanitizer property: variants that a package marks thorough_only (too expensive for the package's own quick
@@ -63,6 +65,24 @@ def gen(tier, rng):
     for t in KINDS:
         out.append(f"default_init {t}")
     out += _tofloat_cases(tier, rng)
+    out += _fromfloat_cases(tier, rng)
+    return out
+
+
+def _fromfloat_cases(tier, rng):
+    """from_floating_point: val = whole + k/2^m (exact), precision 0..6, EVERY span length from 0 to two past the exact fit"""
+    out = ["fromfloat 233 7 10 3 1", "fromfloat 233 7 10 3 8", "fromfloat 0 0 0 0 0", "fromfloat 0 1 1 1 2", "fromfloat 0 1 1 1 3"]
+    vals = [(0, 0, 0), (0, 1, 1), (7, 0, 0), (9, 3, 2), (10, 1, 3), (233, 7, 10), (99999, 1023, 10), (1 << 40, 5, 3), (123456789012, 1, 1)]
+    for _ in range(40 if tier == "quick" else 2000):
+        m = rng.randint(0, 10)
+        vals.append((rng.choice([0, rng.randint(0, 999), rng.randint(0, 1 << rng.randint(1, 40))]), rng.randint(0, (1 << m) - 1), m))
+    for whole, k, m in vals:
+        for prec in range(0, 7):
+            wd = len(str(whole)) if whole else 0
+            exact = wd + (0 if prec == 0 else 1 + prec) + 1
+            for n in sorted({0, 1, 2, exact - 2, exact - 1, exact, exact + 1, exact + 2}):
+                if n >= 0:
+                    out.append(f"fromfloat {whole} {k} {m} {prec} {n}")
     return out
 
 
@@ -121,8 +141,17 @@ def _one_package(pid, tier, seed):
         return res
     h = _pick_variant(prop)
     if h is None:
-        res["skipped"] = "package declares no sanitizer harness variant"
-        return res
+        # the package declares no sanitizer variant: C02 builds the package's first (main) harness with ASan+UBSan itself
+        # (nothing of the package is edited; the binary is build/<pkg>/h-c02san-*)
+        hs = list(getattr(prop, "HARNESSES", []))
+        if not hs:
+            res["skipped"] = "package declares no harness"
+            return res
+        h = dict(hs[0])
+        h["name"] = "c02san"
+        h["flags"] = list(h.get("flags", [])) + SAN + ["-g0"]
+        h.pop("thorough_only", None)
+        res["derived_by_C02"] = True
     res["variant"] = h["name"]
     res["sanitizers"] = " ".join(_sanitizer_flags(h))
     if tier == "quick" and pid in QUICK_SKIP:
@@ -182,9 +211,9 @@ def extra_checks(ctx):
             results.append(f.result())
     ctx.evidence = {"aggregated_sanitizer_runs": results,
                     "aggregated_cases": sum(r["cases"] for r in results),
-                    "packages_without_sanitizer_variant": [r["package"] for r in results if r["skipped"] and "declares no" in r["skipped"]],
+                    "packages_without_own_sanitizer_variant_built_by_C02": [r["package"] for r in results if r.get("derived_by_C02")],
                     "components_without_model": ["format", "random", "complex arithmetic", "linalg arithmetic", "mutex", "scope", "ranges",
-                                                 "experimental/*", "to_floating_point / from_floating_point"]}
+                                                 "experimental/*"]}
     for r in results:
         if r.get("build_failed"):
             items.append({"kind": "violation", "found_input": False,
